@@ -2220,3 +2220,9 @@ M("c03-report-only-first-64-buckets", "C03", "stats.go",
 M("c02-registry-pass-trylock", "C02", "scope_registry.go",
   "func (r *scopeRegistry) CachedReport() {\n", "func (r *scopeRegistry) CachedReport() {\n	if !reportGate.TryLock() {\n		return\n	}\n	defer reportGate.Unlock()\n", expect="O5 registry-coverage",
   more=[("scope_registry.go", "func (r *scopeRegistry) CachedReport() {", "var reportGate sync.Mutex\n\nfunc (r *scopeRegistry) CachedReport() {")])
+M("c16-read-struct-begin-inverted", "C16", "m3/thrift/v2/ttypes.go",
+  "func (p *MetricTag) Read(iprot thrift.TProtocol) error {\n	if _, err := iprot.ReadStructBegin(); err != nil {", "func (p *MetricTag) Read(iprot thrift.TProtocol) error {\n	if _, err := iprot.ReadStructBegin(); err == nil {", expect="O1 error-discipline")
+M("c16-write-error-dropped", "C16", "m3/thrift/v2/ttypes.go",
+  "	if err := oprot.WriteString(string(p.Value)); err != nil {\n		return thrift.PrependError(fmt.Sprintf(\"%T.value (2) field write error: \", p), err)\n	}", "	_ = oprot.WriteString(string(p.Value))", expect="O1")
+M("c16-args-read-error-swallowed", "C16", "m3/thrift/v2/m3.go",
+  "func (p *M3EmitMetricBatchV2Args) Read(iprot thrift.TProtocol) error {\n	if _, err := iprot.ReadStructBegin(); err != nil {\n		return thrift.PrependError(", "func (p *M3EmitMetricBatchV2Args) Read(iprot thrift.TProtocol) error {\n	if _, err := iprot.ReadStructBegin(); err != nil {\n		return nil\n		return thrift.PrependError(", expect="O1 error-discipline")
